@@ -394,6 +394,11 @@ func joinToks(ts []Tok) string {
 // process-wide memo keyed too coarsely is filled with the *wrong* entry before the recipe
 // under test is evaluated (results are discarded; the output is drained).
 func warmSiblings(c *Ctx, seed uint64, cfg CharCfg) {
+	if len(cfg.RequireSets) > 8 {
+		// the library's count is exponential in the number of required sets (seconds per call at
+		// 11-13 sets): no sibling warm-ups for these configurations
+		return
+	}
 	r := Sub(seed, "siblings")
 	sibs := charSiblings(r, cfg)
 	for i, sc := range sibs {
